@@ -67,6 +67,10 @@ var contractSMTFns = map[string]smtFn{
 	"rv_index":    {[]string{"RV", "Int"}, "RV", nil},
 	"rv_mapval":   {[]string{"RV", "Iface"}, "RV", nil},
 	"rv_key":      {[]string{"RV", "Int"}, "RV", nil},
+	"t_numin":     {[]string{"TypeTag"}, "Int", types.Typ[types.Int]},
+	"t_numout":    {[]string{"TypeTag"}, "Int", types.Typ[types.Int]},
+	"t_in":        {[]string{"TypeTag", "Int"}, "TypeTag", nil},
+	"t_out":       {[]string{"TypeTag", "Int"}, "TypeTag", nil},
 	"rv_convert":  {[]string{"RV", "TypeTag"}, "RV", nil},
 	"rv_indirect": {[]string{"RV"}, "RV", nil},
 	"rv_field":    {[]string{"RV", "Str"}, "RV", nil},
